@@ -669,6 +669,14 @@ class Interp:
 
     x_Global = x_Nonlocal = x_Pass
 
+    def x_Match(self, s, st, fr):
+        from .desugar import match_as_ifs, Unsupported
+        try:
+            stmts = match_as_ifs(s)
+        except Unsupported as e:
+            raise AnalysisError("match statement at %s outside the supported fragment (%s)" % (self.where(s, fr), e))
+        return self.exec_block(stmts, [st], fr)
+
     def x_Import(self, s, st, fr):
         o = Out()
         for a in s.names:
@@ -2364,7 +2372,34 @@ class Interp:
                 # a small helper object local to the package: its constructor is walked, so that what it stores
                 # in the new object can be read back (the object is fresh: nothing else refers to it)
                 return [(y, obj) for y, _v in self.inline(init, obj, args, kws, fterm, st, fr, o, e)]
+            if cls is not None and init is None and _is_dataclass(cls):
+                # a record: the synthesised constructor stores each argument in the field of the same rank / name
+                fields = _dataclass_fields(cls)
+                vals = dict(zip([n for n, _d in fields], args))
+                vals.update({k: v for k, v in kws if k is not None})
+                y = st
+                ok = len(args) <= len(fields) and all(k in dict(fields) for k in vals)
+                for name, dflt in fields:
+                    if name in vals:
+                        v = vals[name]
+                    elif dflt is not None:
+                        rs = self.eval(dflt, y, fr, o)
+                        if len(rs) != 1:
+                            ok = False
+                            break
+                        y, v = rs[0]
+                    else:
+                        ok = False
+                        break
+                    y = y.with_var(HEAP, (obj, name), v)
+                if ok:
+                    return [(y, obj)]
             return [(st, obj)]
+        if kind == 'ext' and callee in ('str', 'format', 'repr') and len(args) == 1 and not kws and args[0][0] == 'new' \
+                and isinstance(args[0][1], str) and args[0][1] in self.prog.classes:
+            g = self.prog.supplier(self.prog.classes[args[0][1]], '__repr__' if callee == 'repr' else '__str__')
+            if g is not None and fr.depth < self.an.max_inline and g.qualname not in fr.stack:
+                return self.inline(g, args[0], (), (), fterm, st, fr, o, e)
         if kind == 'ext':
             short = callee.split('.')[-1]
             if callee == 'getattr' and len(args) >= 2 and args[1][0] == 'const' and isinstance(args[1][1], str):
@@ -2735,6 +2770,20 @@ def _format_parts(tpl, args):
     if i != len(args):
         return None
     return tuple(out)
+
+
+def _is_dataclass(cls):
+    return any((dotted(d.func if isinstance(d, ast.Call) else d) or '').split('.')[-1] == 'dataclass'
+               for d in cls.node.decorator_list)
+
+
+def _dataclass_fields(cls):
+    out = []
+    for n in cls.node.body:
+        if isinstance(n, ast.AnnAssign) and isinstance(n.target, ast.Name) and \
+                not (dotted(n.annotation) or '').endswith('ClassVar'):
+            out.append((n.target.id, n.value))
+    return out
 
 
 def _may_stop_early(loop):
